@@ -1,6 +1,8 @@
 package rules
 
 import (
+	"fmt"
+	"os"
 	"go/token"
 	"go/types"
 
@@ -444,13 +446,19 @@ func c11check(c *an.Ctx) {
 				}
 				c.Check(isParam(arg(ac, 0), fn, 1) && isParam(arg(ac, 1), fn, 2), fn, "IsAllowed gets topic and channel", ac.Pos(), "", "IsAuthorized does not forward (topic, channel) in that order")
 			}
-			q2 := &an.PathQ{Fn: fn, StartEntry: true, Marked: verdicts,
+			q2 := &an.PathQ{Fn: fn, StartEntry: true, Marked: verdicts, AllAlias: true, AllConsts: true, FullOnly: true,
 				Sink: func(in ssa.Instruction, st *an.PathState) bool {
 					r, ok := in.(*ssa.Return)
 					if !ok {
 						return false
 					}
 					v := an.Resolve(r.Results[0])
+					// a single exit: the value the merged result variable took on this path
+					if k, known := st.ConstOf(r.Results[0]); known {
+						v = k
+					} else if sel := st.Selected(r.Results[0]); sel != nil {
+						v = an.Resolve(sel)
+					}
 					if st.Marked(v) {
 						return false // `return state.IsAllowed(topic, channel), nil`: the verdict itself
 					}
@@ -637,10 +645,19 @@ func notFalseReturnBut(verdicts []*ssa.Call) func(in ssa.Instruction, st *an.Pat
 		}
 		v := an.Resolve(r.Results[0])
 		if st != nil {
-			if k, known := st.ConstOf(r.Results[0]); known {
-				v = k
-			} else if sel := st.Selected(r.Results[0]); sel != nil {
+			// the value the result took on this path, through merges of merges (a flag carried round a loop and out of it)
+			cur := r.Results[0]
+			for i := 0; i < 4; i++ {
+				if k, known := st.ConstOf(cur); known {
+					v = k
+					break
+				}
+				sel := st.Selected(cur)
+				if sel == nil {
+					break
+				}
 				v = an.Resolve(sel)
+				cur = sel
 			}
 		}
 		if k, isC := v.(*ssa.Const); isC && k.Value != nil && k.Value.String() == "false" {
@@ -650,6 +667,9 @@ func notFalseReturnBut(verdicts []*ssa.Call) func(in ssa.Instruction, st *an.Pat
 			if an.Strip(v) == ssa.Value(mc) {
 				return false
 			}
+		}
+		if os.Getenv("VERIF_DBG11") != "" {
+			fmt.Fprintln(os.Stderr, "sink value", v.Name(), v.String(), "of", r.Results[0].Name())
 		}
 		return true
 	}
@@ -662,7 +682,21 @@ func trueOnlyPast(fn *ssa.Function, mc *ssa.Call) bool {
 	for _, t := range an.BoolTests(mc) {
 		tr = append(tr, t.True)
 	}
-	q := &an.PathQ{Fn: fn, StartEntry: true, FullOnly: true, AllConsts: true, AllAlias: true, Sink: notFalseReturnBut([]*ssa.Call{mc}), CutEdge: func(e an.Edge, _ *an.PathState) bool { return an.EdgeIn(e, tr) }}
-	_, f := q.Find()
+	q := &an.PathQ{Fn: fn, StartEntry: true, FullOnly: true, AllConsts: true, AllAlias: true, Sink: notFalseReturnBut([]*ssa.Call{mc}), CutEdge: func(e an.Edge, ps *an.PathState) bool {
+		if an.EdgeIn(e, tr) {
+			return true
+		}
+		// the verdict carried in a flag (`allowed = re.MatchString(…)` … `if allowed`): the branch on the flag decides it
+		for _, f := range ps.FactsOnEdge(e) {
+			if f.True && an.Strip(f.V) == ssa.Value(mc) {
+				return true
+			}
+		}
+		return false
+	}}
+	w, f := q.Find()
+	if f && os.Getenv("VERIF_DBG11") != "" {
+		fmt.Fprintln(os.Stderr, "trueOnlyPast", mc.String(), "witness:", fmt.Sprint(w))
+	}
 	return !f
 }
